@@ -3,6 +3,8 @@ import Zstd.Driver.Headers
 import Zstd.Driver.Window
 import Zstd.Driver.Spec
 import Zstd.Driver.Dec
+import Zstd.Driver.BitIO
+import Zstd.Driver.Fse
 import Zstd.Driver.Matcher
 /-
 `zmodel`: the model side of the correspondence check.  Reads one request per line on stdin
@@ -22,6 +24,8 @@ def step (st : St) (line : String) : St × String :=
   | "window" :: cmd :: args => (st, Window.handle cmd args)
   | "spec" :: cmd :: args => (st, Driver.Spec.handle cmd args)
   | "matcher" :: cmd :: args => let (m, o) := Matcher.step st.matcher cmd args; ({ st with matcher := m }, o)
+  | "bits" :: cmd :: args => (st, Driver.BitIO.handle cmd args)
+  | "fse" :: cmd :: args => (st, Driver.Fse.handle cmd args)
   | "dec" :: args => let (s2, o) := Dec.step st.dec args; ({ st with dec := s2 }, o)
   | _ => (st, badOp)
 
